@@ -145,12 +145,8 @@ struct IoFault : Profile {
                 o.kind = "grnew";
                 o.a.resize(5);
             }
-            // known finding C16-sd-coder-error-paths: datasets stored through the n-bit and skipping-Huffman coders, RLE,
-            // chunked+deflate or in an external file (sdnew2) are created with the plain layouts here (guard unguard_sd2)
-            if (o.kind == "sdnew2" && p.knob("unguard_sd2", 0) == 0) {
-                o.kind = "sdnew";
-                o.a.resize(7);
-            }
+            // (datasets with coder, chunked+deflate and external layouts -- sdnew2 -- used to be created plain here: the SD coder
+            // error paths were repaired, findings/fixed)
             if (mx.run(o))
                 ctx.st.ops_done++;
             else
